@@ -12,10 +12,14 @@ package actionlint
 
 import (
 	"fmt"
+	"os"
+	"path/filepath"
 	"regexp"
 	"sort"
 	"strings"
 	"testing"
+
+	"gopkg.in/yaml.v3"
 
 	"github.com/rhysd/actionlint/verifshim/vexec"
 	"github.com/rhysd/actionlint/verifshim/vsched"
@@ -161,7 +165,7 @@ func (f *c09Family) alone(seq []*c09Item, k int, steps bool) []*c09Item {
 			dep = i < k && o.id != ""
 		} else {
 			for _, d := range it.deps {
-				if d == o.name {
+				if d == o.name || (o.id != "" && strings.EqualFold(d, o.id)) {
 					dep = true
 				}
 			}
@@ -349,6 +353,102 @@ func TestVerifC09(t *testing.T) {
 		})
 	}
 
+	// corpus family: every job of the repository's own example / ok / err workflows (hundreds of
+	// shapes nobody chose for this purpose) as predecessor and as successor of every other one and
+	// of the hand-written library jobs
+	repo := os.Getenv("VERIF_REPO")
+	if repo == "" {
+		repo = "/repo"
+	}
+	corpus := c09CorpusJobs(repo, lint)
+	r.Bounds["corpus_jobs"] = len(corpus)
+	if len(corpus) < 100 {
+		r.HarnessError("corpus of jobs too small: %d", len(corpus))
+	}
+	cf := &c09Family{name: "corpus-jobs", header: "on: pull_request\njobs:\n"}
+	cf.items = append(cf.items, corpus...)
+	nCorpus := len(cf.items)
+	for _, it := range c09Jobs {
+		it.id = it.name
+		cf.items = append(cf.items, it)
+	}
+	corpusAlone := map[string][]string{}
+	aloneOf := func(it *c09Item) []string {
+		if w, ok := corpusAlone[it.name]; ok {
+			return w
+		}
+		src, rg := cf.compose([]*c09Item{it})
+		res := lint(src)
+		w := c09Rel(res.Errs, rg[0][0], rg[0][1], []*c09Item{it}, rg)
+		corpusAlone[it.name] = w
+		return w
+	}
+	for i := 0; i < len(cf.items); i++ {
+		for j := 0; j < len(cf.items); j++ {
+			if i == j || (i >= nCorpus && j >= nCorpus) {
+				continue // library x library is the family above
+			}
+			if !vThorough() && i < nCorpus && j < nCorpus && (i%4 != 0 && j%4 != 0) {
+				continue // quick: every fourth corpus job against all others (both directions); thorough: all pairs
+			}
+			a, b := &cf.items[i], &cf.items[j]
+			if strings.EqualFold(a.id, b.id) {
+				continue
+			}
+			related := false
+			for _, d := range a.deps {
+				if strings.EqualFold(d, b.id) {
+					related = true
+				}
+			}
+			for _, d := range b.deps {
+				if strings.EqualFold(d, a.id) {
+					related = true
+				}
+			}
+			if related {
+				continue // one needs the other by name: not unrelated
+			}
+			idx++
+			if !r.Mine(idx) {
+				continue
+			}
+			if idx%512 == 0 && r.Expired() {
+				return
+			}
+			seq := []*c09Item{a, b}
+			src, ranges := cf.compose(seq)
+			r.Begin(func() string { return fmt.Sprintf("corpus pair %s, %s", a.name, b.name) })
+			res := lint(src)
+			r.Evaluations++
+			r.Transitions++
+			r.Validated++
+			if res.Panic != "" || res.Err != nil {
+				r.Violation("failure", fmt.Sprintf("corpus pair %s, %s: panic=%q err=%v", a.name, b.name, vTrunc(res.Panic, 200), res.Err), map[string]any{"composed": src, "alone": ""})
+				continue
+			}
+			yamlBroken := false
+			for _, e := range res.Errs {
+				if strings.HasPrefix(e.Message, "could not parse as YAML") {
+					yamlBroken = true
+				}
+			}
+			if yamlBroken {
+				continue
+			}
+			for k, it := range seq {
+				want := aloneOf(it)
+				got := c09Rel(res.Errs, ranges[k][0], ranges[k][1], seq, ranges)
+				if strings.Join(got, "\n") != strings.Join(want, "\n") {
+					asrc, ar := cf.compose([]*c09Item{it})
+					r.Violation("leak:corpus:"+[]string{"first", "second"}[k], fmt.Sprintf("corpus job %q next to %q (as %s of the two): diagnostics differ from the job alone\n in composition: %s\n alone:          %s", it.name, seq[1-k].name, []string{"first", "second"}[k], c10Diff(got, want), c10Diff(want, got)),
+						map[string]any{"composed": src, "alone": asrc, "item": it.name, "cnames": []string{a.name, b.name}, "cranges": ranges, "anames": []string{it.name}, "aranges": ar})
+				}
+			}
+			r.Class("corpus-jobs pair", true)
+		}
+	}
+
 	// job visiting order is a map order: pairs of jobs under every single map-order deviation
 	jf := families[0]
 	for i := range jf.items {
@@ -409,4 +509,80 @@ func c02FirstDiffCopy(a, b string) string {
 func c09Ranges(f *c09Family, seq []*c09Item) [][2]int {
 	_, rg := f.compose(seq)
 	return rg
+}
+
+// c09CorpusJobs extracts every block-style job (keys at two spaces) of the repository's example,
+// ok and err workflows as an item; jobs whose text does not stand alone as YAML (aliases to
+// anchors of other jobs) are left out.
+func c09CorpusJobs(repo string, lint func(string) vLintResult) []c09Item {
+	var out []c09Item
+	for _, g := range []string{"testdata/examples/*.yaml", "testdata/ok/*.yaml", "testdata/err/*.yaml"} {
+		files, _ := filepath.Glob(filepath.Join(repo, g))
+		sort.Strings(files)
+		for _, f := range files {
+			b, err := os.ReadFile(f)
+			if err != nil {
+				continue
+			}
+			var doc yaml.Node
+			if yaml.Unmarshal(b, &doc) != nil || len(doc.Content) != 1 || doc.Content[0].Kind != yaml.MappingNode {
+				continue
+			}
+			root := doc.Content[0]
+			lines := strings.Split(string(b), "\n")
+			for i := 0; i+1 < len(root.Content); i += 2 {
+				if root.Content[i].Value != "jobs" || root.Content[i+1].Kind != yaml.MappingNode {
+					continue
+				}
+				end := len(lines) // last line of the jobs section
+				if i+2 < len(root.Content) {
+					end = root.Content[i+2].Line - 1
+				}
+				jobs := root.Content[i+1]
+				for j := 0; j+1 < len(jobs.Content); j += 2 {
+					k, v := jobs.Content[j], jobs.Content[j+1]
+					if k.Column != 3 || k.Style != 0 || v.Kind != yaml.MappingNode || v.Style&yaml.FlowStyle != 0 {
+						continue
+					}
+					last := end
+					if j+2 < len(jobs.Content) {
+						last = jobs.Content[j+2].Line - 1
+					}
+					var blk []string
+					for _, l := range lines[k.Line-1 : last] {
+						if strings.TrimSpace(l) == "" || strings.HasPrefix(strings.TrimSpace(l), "#") {
+							continue
+						}
+						blk = append(blk, l)
+					}
+					if len(blk) == 0 || !strings.HasPrefix(blk[0], "  "+k.Value+":") {
+						continue
+					}
+					it := c09Item{name: fmt.Sprintf("%s@%s/%s#%d", k.Value, filepath.Base(filepath.Dir(f)), strings.TrimSuffix(filepath.Base(f), ".yaml"), j/2), id: k.Value, text: strings.Join(blk, "\n") + "\n"}
+					for m := 0; m+1 < len(v.Content); m += 2 {
+						if strings.EqualFold(v.Content[m].Value, "needs") {
+							nv := v.Content[m+1]
+							if nv.Kind == yaml.ScalarNode {
+								it.deps = append(it.deps, nv.Value)
+							}
+							for _, e := range nv.Content {
+								it.deps = append(it.deps, e.Value)
+							}
+						}
+					}
+					res := lint("on: pull_request\njobs:\n" + it.text)
+					bad := res.Panic != "" || res.Err != nil
+					for _, e := range res.Errs {
+						if strings.HasPrefix(e.Message, "could not parse as YAML") {
+							bad = true
+						}
+					}
+					if !bad {
+						out = append(out, it)
+					}
+				}
+			}
+		}
+	}
+	return out
 }
